@@ -34,7 +34,35 @@ TRACKED = ('_client_identity', '_protocol_version', '_attribute_policy', '_data_
 USERS = [('alice', 101), ('bob', 202), ('carol', 303), ('dave', 404)]
 VERSIONS = [(1, 0), (1, 1), (1, 2), (1, 4), (2, 0)]
 CODES = {'ITEM_NOT_FOUND': 1, 'PERMISSION_DENIED': 2, 'OPERATION_NOT_SUPPORTED': 3}
-OPC = {'create': 1, 'get': 10, 'attrlist': 12, 'activate': 18, 'destroy': 20, 'discover': 30}
+OPC = {'create': 1, 'get': 10, 'attrlist': 12, 'activate': 18, 'destroy': 20, 'discover': 30, 'query': 24}
+QF = enums.QueryFunction
+FNSETS = [[QF.QUERY_OPERATIONS, QF.QUERY_OBJECTS], [QF.QUERY_OPERATIONS], [QF.QUERY_SERVER_INFORMATION, QF.QUERY_OBJECTS],
+          [QF.QUERY_OPERATIONS, QF.QUERY_OBJECTS, QF.QUERY_SERVER_INFORMATION]]
+_REF = {}
+
+
+def reference_answer(version, spec_op):
+    """Sequential reference under the session's OWN version: the same read-only request served alone by a fresh engine."""
+    key = (version, spec_op)
+    if key not in _REF:
+        e = kdrv.Engine()
+        try:
+            r = e.request(build_items([spec_op]), version=version, user='reference')
+            it = r['items'][0]
+            _REF[key] = (it['status'], it['reason'], readonly_view(it))
+        finally:
+            e.close()
+    return _REF[key]
+
+
+def readonly_view(it):
+    p = it['payload'] or {}
+    if it['op'] == 'QUERY':
+        return {'operations': sorted(str(x) for x in (p.get('operations') or [])), 'object_types': sorted(str(x) for x in (p.get('object_types') or [])),
+                'vendor': p.get('vendor_identification')}
+    if it['op'] == 'DISCOVER_VERSIONS':
+        return {'versions': [str(v) for v in (p.get('protocol_versions') or [])]}
+    return None
 
 
 # ---------------------------------------------------------------------------------- static part of the tie
@@ -154,6 +182,8 @@ def build_items(spec):
             out.append(kdrv.get_attribute_list(None if op[1] is None else str(op[1])))
         elif k == 'discover':
             out.append(kdrv.discover_versions())
+        elif k == 'query':
+            out.append(kdrv.query(FNSETS[op[1]]))
     return out
 
 
@@ -169,6 +199,8 @@ def coq_req(version, spec):
             ops.append('QCreate')
         elif k == 'discover':
             ops.append('QDiscover')
+        elif k == 'query':
+            ops.append('(QQuery %s)' % cp.boolean(QF.QUERY_OPERATIONS in FNSETS[op[1]]))
         else:
             ops.append('(%s %s)' % ({'get': 'QGet', 'activate': 'QActivate', 'destroy': 'QDestroy', 'attrlist': 'QAttrList'}[k], coq_opt(op[1])))
     return '(mkReq %s [%s])' % (cp.z(version[0] * 10 + version[1]), '; '.join(ops))
@@ -189,6 +221,8 @@ def project_response(resp, spec):
             extra = 0
             if opname == 'GET_ATTRIBUTE_LIST':
                 extra = 1 if 'Sensitive' in (p.get('attribute_names') or []) else 0
+            if opname == 'QUERY':
+                extra = len(p.get('operations') or [])
             try:
                 uid = int(uid) if uid is not None else 0
             except (TypeError, ValueError):
@@ -222,21 +256,41 @@ def gen_queue(rng, n_req, known_uids, max_uid):
             spec = [('activate', uid())]
         elif c < 0.84:
             spec = [('destroy', uid())]
-        elif c < 0.92:
+        elif c < 0.88:
             spec = [('discover',)]
+        elif c < 0.95:
+            spec = [('query', rng.randrange(len(FNSETS)))]
         else:
-            spec = [('get', uid()), ('discover',), ('attrlist', uid())]
+            spec = rng.choice([[('get', uid()), ('discover',), ('attrlist', uid())],
+                               [('query', 0), ('discover',), ('query', 1)]])
         q.append(spec)
     return q
 
 
+def describe_diff(got, ref):
+    if got[:2] != ref[:2]:
+        return 'status %s/%s instead of %s/%s' % (got[0], got[1], ref[0], ref[1])
+    g, r = got[2] or {}, ref[2] or {}
+    for k in sorted(set(g) | set(r)):
+        if g.get(k) != r.get(k):
+            a, b = g.get(k), r.get(k)
+            if isinstance(a, list) and isinstance(b, list):
+                return '%s: not of its version %s, missing %s' % (k, sorted(set(a) - set(b)), sorted(set(b) - set(a)))
+            return '%s: %r instead of %r' % (k, a, b)
+    return 'different'
+
+
 # ---------------------------------------------------------------------------------- one concurrent run
-def concurrent_run(ctx, name, rng, n_clients, n_req, with_error_responses=True):
+def concurrent_run(ctx, name, rng, n_clients, n_req, with_error_responses=True, fixed=None, sequential=None):
+    """fixed = (versions, queues): a prescribed plan instead of a generated one; sequential = list of client numbers: the
+    clients are served strictly in that arrival order (one request at a time, no threads racing)."""
     eng = kdrv.Engine(workdir=str(ctx.work / name))
     users = USERS[:n_clients]
     versions = [rng.choice(VERSIONS) for _ in users]
     if len(set(versions)) == 1:
         versions[0] = (1, 0) if versions[0] != (1, 0) else (2, 0)
+    if fixed is not None:
+        versions = list(fixed[0])
     # sequential preparation: every client owns a few objects (part of the model's initial store)
     store0 = []
     for (user, code) in users:
@@ -245,6 +299,8 @@ def concurrent_run(ctx, name, rng, n_clients, n_req, with_error_responses=True):
             store0.append((int(r['items'][0]['payload']['unique_identifier']), code, 1))
     known = [u for u, _, _ in store0]
     queues = [gen_queue(rng, n_req, known, len(store0) + n_clients * n_req) for _ in users]
+    if fixed is not None:
+        queues = [list(q) for q in fixed[1]]
     msgs = [[eng.build(build_items(spec), version=versions[t]) for spec in queues[t]] for t in range(n_clients)]
     log = []
     install_tracer(eng.engine, log)
@@ -253,11 +309,27 @@ def concurrent_run(ctx, name, rng, n_clients, n_req, with_error_responses=True):
     errors = []
     start = threading.Barrier(n_clients)
 
+    turn = {'k': 0}
+    turn_cv = threading.Condition()
+
     def client(t):
         tid_of[threading.get_ident()] = t
         cred = (users[t][0], None)
         start.wait()
         for i, m in enumerate(msgs[t]):
+            if sequential is not None:
+                with turn_cv:
+                    turn_cv.wait_for(lambda: turn['k'] < len(sequential) and sequential[turn['k']] == t, timeout=60)
+            try:
+                _serve(t, i, m, cred)
+            finally:
+                if sequential is not None:
+                    with turn_cv:
+                        turn['k'] += 1
+                        turn_cv.notify_all()
+
+    def _serve(t, i, m, cred):
+        if True:
             try:
                 resp, _, ver = eng.engine.process_request(m, cred)
                 results[t][i] = (resp, ver)
@@ -342,6 +414,19 @@ def concurrent_run(ctx, name, rng, n_clients, n_req, with_error_responses=True):
                     if o[1] == 2 and sp[0] in ('get', 'attrlist') and owner.get(target) == me:
                         ctx.violation({'class': 'identity-crossed', 'op': sp[0], 'direction': 'denied-own'}, w,
                                       'client %s was denied %s on its own object %s' % (users[t][0], sp[0], target))
+                if sp[0] in ('query', 'discover'):
+                    # read-only answers that depend on the session's version: compare with the same request served alone,
+                    # under this session's own version, by a fresh engine
+                    items_raw = results[t][i][0].batch_items
+                    k = [j for j, (oo, ss) in enumerate(zip(obs, spec)) if oo is o and ss is sp][0]
+                    mine = kdrv.project_item(items_raw[k])
+                    ref = reference_answer(versions[t], sp)
+                    got = (mine['status'], mine['reason'], readonly_view(mine))
+                    if got != ref:
+                        ctx.violation({'class': 'version-crossed', 'op': sp[0], 'how': 'sequential-reference'},
+                                      dict(w, version=versions[t], answered=got, alone_under_own_version=ref),
+                                      '%s from a KMIP %d.%d session is answered differently from the same request served alone under that '
+                                      'version: %s' % (sp[0], versions[t][0], versions[t][1], describe_diff(got, ref)))
                 if sp[0] == 'discover':
                     want = 3 if versions[t] < (1, 1) else 0
                     if o[1] != want:
@@ -480,7 +565,9 @@ def run(ctx):
     quick = ctx.tier == 'quick'
     ctx.cov['rule'] = ('concurrent runs of 2-4 client threads with different identities and protocol versions (1.0-2.0) against one '
                        'KmipEngine, switch interval 1e-6: Create+Get/Activate through the ID placeholder, Get/GetAttributeList/Activate/'
-                       'Destroy on own, foreign, destroyed and never-issued identifiers, DiscoverVersions, unlocked build_error_response '
+                       'Destroy on own, foreign, destroyed and never-issued identifiers, DiscoverVersions, Query with four function sets '
+                       '(answers compared with the same request served alone under the session\'s own version; scheduled arrival '
+                       'orders of 1.0/1.1/1.4/2.0 sessions on one engine), unlocked build_error_response '
                        'calls; one evaluation = one run; non-trivial = the order of entry into process_request switches between clients; '
                        'distinct = different (order, responses).  Plus two forced schedules (identity, version) on the deployed entry point '
                        'and on the undecorated body.')
@@ -496,6 +583,24 @@ def run(ctx):
     run_probes(ctx)          # first: a hit here is a concrete schedule (goes into the replay file)
     n_runs = 60 if quick else 400
     cases, meta = [], []
+    # scheduled runs of read-only requests whose answer depends on the session's version, from sessions of different
+    # versions on ONE engine: every arrival order of three sessions, then racing
+    ro_versions = [(1, 0), (1, 4), (1, 1), (2, 0)]
+    ro_queue = [[('query', 0)], [('discover',)], [('query', 1), ('query', 3)], [('query', 2)], [('query', 0)]]
+    import itertools
+    plans = [list(p) for p in itertools.permutations(range(3))] + [[3, 0, 2, 1], [1, 3, 2, 0]]
+    for k, order in enumerate(plans):
+        n = len(order)
+        seq = [t for _ in ro_queue for t in order]          # round-robin arrival in the given order
+        c, m = concurrent_run(ctx, 'ro%02d' % k, ctx.subrng('ro/%d' % k), n, 0, fixed=(ro_versions[:n], [ro_queue] * n), sequential=seq)
+        if c is not None:
+            cases.append(c)
+            meta.append(dict(m, arrival_order=[USERS[t][0] for t in order]))
+    for k in range(4 if quick else 20):
+        c, m = concurrent_run(ctx, 'rr%02d' % k, ctx.subrng('rr/%d' % k), 4, 0, fixed=(ro_versions, [ro_queue] * 4))
+        if c is not None:
+            cases.append(c)
+            meta.append(m)
     for k in range(n_runs):
         rng = ctx.subrng('run/%d' % k)
         n_clients = rng.choice([2, 2, 3, 3, 4])
